@@ -225,6 +225,258 @@ func (t *c15Tr) val(e ast.Expr) (c15Val, error) {
 	return c15Val{}, fmt.Errorf("%s: unsupported expression %T", t.at(e), e)
 }
 
+
+// ---------------------------------------------------------------- reader side (formats/splat/read.go)
+
+// the record word / byte at a buffer offset
+var c15Word = map[int]string{0: "r.p0", 4: "r.p1", 8: "r.p2", 12: "r.s0", 16: "r.s1", 20: "r.s2"}
+var c15Byte = map[int]string{24: "r.c0", 25: "r.c1", 26: "r.c2", 27: "r.al", 28: "r.r0", 29: "r.r1", 30: "r.r2", 31: "r.r3"}
+
+// which splat fields each accumulated slice holds, and the attribute it must be stored under
+var c15Target = map[string][]string{
+	"positionData": {"px", "py", "pz"},
+	"scaleData":    {"sx", "sy", "sz"},
+	"colorData":    {"cx", "cy", "cz"},
+	"opacityData":  {"op"},
+	"rotationData": {"r0", "r1", "r2", "r3"},
+}
+var c15StoredAs = map[string]string{
+	"modeling.RotationAttribute": "rotationData", "modeling.PositionAttribute": "positionData",
+	"modeling.ScaleAttribute": "scaleData", "modeling.FDCAttribute": "colorData", "modeling.OpacityAttribute": "opacityData",
+}
+
+type c15Rd struct {
+	fset *token.FileSet
+	env  map[string]string
+}
+
+func (t *c15Rd) at(n ast.Node) string { return fmt.Sprintf("read.go:%d", t.fset.Position(n.Pos()).Line) }
+
+func (t *c15Rd) offset(e ast.Expr) (int, bool, error) { // (offset, isSlice)
+	switch x := e.(type) {
+	case *ast.Ident:
+		if x.Name == "splatBuffer" {
+			return 0, true, nil
+		}
+	case *ast.SliceExpr:
+		if id, ok := x.X.(*ast.Ident); ok && id.Name == "splatBuffer" && x.High == nil && x.Low != nil {
+			if l, ok := x.Low.(*ast.BasicLit); ok {
+				var k int
+				fmt.Sscan(l.Value, &k)
+				return k, true, nil
+			}
+		}
+	case *ast.IndexExpr:
+		if id, ok := x.X.(*ast.Ident); ok && id.Name == "splatBuffer" {
+			if l, ok := x.Index.(*ast.BasicLit); ok {
+				var k int
+				fmt.Sscan(l.Value, &k)
+				return k, false, nil
+			}
+		}
+	}
+	return 0, false, fmt.Errorf("%s: unsupported buffer access", t.at(e))
+}
+
+func (t *c15Rd) expr(e ast.Expr) (string, error) {
+	switch x := e.(type) {
+	case *ast.ParenExpr:
+		return t.expr(x.X)
+	case *ast.BasicLit:
+		s, err := c15Lit(x.Value)
+		if err != nil {
+			return "", fmt.Errorf("%s: %v", t.at(x), err)
+		}
+		return s, nil
+	case *ast.Ident:
+		if x.Name == "SH_C0" {
+			return "E.shC0", nil
+		}
+		if v, ok := t.env[x.Name]; ok {
+			return v, nil
+		}
+		return "", fmt.Errorf("%s: unknown identifier %s", t.at(x), x.Name)
+	case *ast.UnaryExpr:
+		if x.Op != token.SUB {
+			return "", fmt.Errorf("%s: unsupported unary operator", t.at(x))
+		}
+		s, err := t.expr(x.X)
+		return "(-" + s + ")", err
+	case *ast.BinaryExpr:
+		op := map[token.Token]string{token.ADD: "+", token.SUB: "-", token.MUL: "*", token.QUO: "/"}[x.Op]
+		if op == "" {
+			return "", fmt.Errorf("%s: unsupported operator %s", t.at(x), x.Op)
+		}
+		l, err := t.expr(x.X)
+		if err != nil {
+			return "", err
+		}
+		r, err := t.expr(x.Y)
+		if err != nil {
+			return "", err
+		}
+		return fmt.Sprintf("(%s %s %s)", l, op, r), nil
+	case *ast.CallExpr:
+		src := c15Src(t.fset, x.Fun)
+		switch src {
+		case "float64":
+			// float64(splatBuffer[k]) = the byte as a number; float64(<float32 value>) = the value
+			if len(x.Args) == 1 {
+				if k, isSlice, err := t.offset(x.Args[0]); err == nil && !isSlice {
+					b, ok := c15Byte[k]
+					if !ok {
+						return "", fmt.Errorf("%s: byte offset %d is not a byte field of the record", t.at(x), k)
+					}
+					return "(byteF " + b + ")", nil
+				}
+				return t.expr(x.Args[0])
+			}
+		case "math.Float32frombits":
+			if len(x.Args) == 1 {
+				if c, ok := x.Args[0].(*ast.CallExpr); ok && c15Src(t.fset, c.Fun) == "binary.LittleEndian.Uint32" && len(c.Args) == 1 {
+					k, isSlice, err := t.offset(c.Args[0])
+					if err != nil {
+						return "", err
+					}
+					w, ok := c15Word[k]
+					if !ok || !isSlice {
+						return "", fmt.Errorf("%s: word offset %d is not a word field of the record", t.at(x), k)
+					}
+					return "(E.of32 " + w + ")", nil
+				}
+			}
+		case "math.Log":
+			if len(x.Args) == 1 {
+				a, err := t.expr(x.Args[0])
+				return "(E.log " + a + ")", err
+			}
+		}
+		return "", fmt.Errorf("%s: unsupported call %s", t.at(x), src)
+	}
+	return "", fmt.Errorf("%s: unsupported expression %T", t.at(e), e)
+}
+
+// c15ReadSplat translates one iteration of the record loop of splat.Read into the fields of a `Splat α`.
+func c15ReadSplat(repo string) (string, string, error) {
+	t := &c15Rd{fset: token.NewFileSet(), env: map[string]string{}}
+	f, err := parser.ParseFile(t.fset, filepath.Join(repo, "formats", "splat", "read.go"), nil, 0)
+	if err != nil {
+		return "", "", err
+	}
+	var rd *ast.FuncDecl
+	for _, d := range f.Decls {
+		if fd, ok := d.(*ast.FuncDecl); ok && fd.Recv == nil && fd.Name.Name == "Read" {
+			rd = fd
+		}
+	}
+	if rd == nil {
+		return "", "", fmt.Errorf("read.go: func Read not found")
+	}
+	var loop *ast.ForStmt
+	bufSize := ""
+	for _, st := range rd.Body.List {
+		switch s := st.(type) {
+		case *ast.AssignStmt:
+			if len(s.Lhs) == 1 && c15Src(t.fset, s.Lhs[0]) == "splatBuffer" {
+				bufSize = c15Src(t.fset, s.Rhs[0])
+			}
+		case *ast.ForStmt:
+			loop = s
+		}
+	}
+	if loop == nil || loop.Cond != nil {
+		return "", "", fmt.Errorf("read.go: record loop `for { … }` not found")
+	}
+	fields := map[string]string{}
+	for i, st := range loop.Body.List {
+		if i == 0 {
+			if c15Src(t.fset, st) != "_, err = io.ReadFull(in, splatBuffer)" {
+				return "", "", fmt.Errorf("%s: the loop does not start with `_, err = io.ReadFull(in, splatBuffer)`", t.at(st))
+			}
+			continue
+		}
+		if i == 1 {
+			if is, ok := st.(*ast.IfStmt); !ok || c15Src(t.fset, is.Cond) != "err != nil" || c15Src(t.fset, is.Body.List[0]) != "break" {
+				return "", "", fmt.Errorf("%s: expected `if err != nil { break }`", t.at(st))
+			}
+			continue
+		}
+		as, ok := st.(*ast.AssignStmt)
+		if !ok || len(as.Lhs) != 1 || len(as.Rhs) != 1 {
+			return "", "", fmt.Errorf("%s: unsupported statement in the record loop", t.at(st))
+		}
+		name := c15Src(t.fset, as.Lhs[0])
+		if as.Tok == token.DEFINE {
+			v, err := t.expr(as.Rhs[0])
+			if err != nil {
+				return "", "", err
+			}
+			t.env[name] = v
+			continue
+		}
+		tgt, ok := c15Target[name]
+		if !ok {
+			return "", "", fmt.Errorf("%s: assignment to %s", t.at(st), name)
+		}
+		ap, ok := as.Rhs[0].(*ast.CallExpr)
+		if !ok || c15Src(t.fset, ap.Fun) != "append" || len(ap.Args) != 2 || c15Src(t.fset, ap.Args[0]) != name {
+			return "", "", fmt.Errorf("%s: expected %s = append(%s, …)", t.at(st), name, name)
+		}
+		val := ap.Args[1]
+		comps := []ast.Expr{val}
+		// vectorN.New(a, b, c).ToFloat64()
+		if c, ok := val.(*ast.CallExpr); ok {
+			if sel, ok := c.Fun.(*ast.SelectorExpr); ok && sel.Sel.Name == "ToFloat64" {
+				if nc, ok := sel.X.(*ast.CallExpr); ok && strings.HasSuffix(c15Src(t.fset, nc.Fun), ".New") {
+					comps = nc.Args
+				}
+			}
+		}
+		if len(comps) != len(tgt) {
+			return "", "", fmt.Errorf("%s: %s gets %d components, expected %d", t.at(st), name, len(comps), len(tgt))
+		}
+		for k, ce := range comps {
+			v, err := t.expr(ce)
+			if err != nil {
+				return "", "", err
+			}
+			fields[tgt[k]] = v
+		}
+	}
+	order := []string{"px", "py", "pz", "sx", "sy", "sz", "cx", "cy", "cz", "op", "r0", "r1", "r2", "r3"}
+	parts := []string{}
+	for _, k := range order {
+		v, ok := fields[k]
+		if !ok {
+			return "", "", fmt.Errorf("read.go: field %s of the splat is never stored", k)
+		}
+		parts = append(parts, fmt.Sprintf("%s := %s", k, v))
+	}
+	// the attribute each slice is stored under
+	stored := 0
+	var serr error
+	ast.Inspect(rd, func(n ast.Node) bool {
+		kv, ok := n.(*ast.KeyValueExpr)
+		if !ok {
+			return true
+		}
+		if want, ok := c15StoredAs[c15Src(t.fset, kv.Key)]; ok {
+			if got := c15Src(t.fset, kv.Value); got != want {
+				serr = fmt.Errorf("%s: %s is stored from %s, expected %s", t.at(kv), c15Src(t.fset, kv.Key), got, want)
+			}
+			stored++
+		}
+		return true
+	})
+	if serr != nil {
+		return "", "", serr
+	}
+	if stored != 5 {
+		return "", "", fmt.Errorf("read.go: %d of the 5 splat attributes are stored in the returned point cloud", stored)
+	}
+	return "{ " + strings.Join(parts, ",\n    ") + " }", bufSize, nil
+}
+
 func c15SplatRecord(repo, out string, args []string) error {
 	t := &c15Tr{fset: token.NewFileSet(), env: map[string]c15Val{}}
 	f, err := parser.ParseFile(t.fset, filepath.Join(repo, "formats", "splat", "write.go"), nil, 0)
@@ -326,6 +578,11 @@ func c15SplatRecord(repo, out string, args []string) error {
 	b.WriteString("/-\n  GENERATED by /verif/go/facts (mode c15.splatrecord) from /repo/formats/splat/write.go.\n  Do not edit: regenerated by ./check C15 before every build.\n-/\nimport PolyVerif.Model.Splat\n\nnamespace PolyVerif.Gen.SplatRecord\nopen PolyVerif PolyVerif.Splat Scalar\n\nvariable {α : Type} [Scalar α]\n\n")
 	fmt.Fprintf(&b, "/-- one iteration of the record loop of `splat.Write`: the argument of every `writer.Float32` (left) / `writer.Byte`\n    (right) call, in source order -/\ndef writeSeq (E : Env α) (s : Splat α) : List (UInt32 ⊕ UInt8) :=\n  [%s]\n\n", strings.Join(seq, ",\n   "))
 	fmt.Fprintf(&b, "/-- `const SH_C0` as written -/\ndef shC0Literal : String := %q\n/-- how the `bitlib` writer is constructed (byte order) -/\ndef writerCtor : String := %q\n\n", shc0, order)
+	rdDef, bufSize, err := c15ReadSplat(repo)
+	if err != nil {
+		return err
+	}
+	fmt.Fprintf(&b, "/-- one iteration of the record loop of `splat.Read` (formats/splat/read.go): the splat appended for the 32-byte record `r` -/\ndef readSplat (E : Env α) (r : Rec) : Splat α :=\n  %s\n\n/-- the read buffer -/\ndef readBuffer : String := %q\n\n", rdDef, bufSize)
 	b.WriteString("end PolyVerif.Gen.SplatRecord\n")
 	return os.WriteFile(out, []byte(b.String()), 0o644)
 }
